@@ -292,9 +292,10 @@ class Gen(object):
     def unit3(self, stream='real'):
         r = self.rng
         if stream == 'lattice':
+            # only exactly representable unit vectors: the lattice stream must keep
+            # double arithmetic exact
             return r.choice([Vector3D(1, 0, 0), Vector3D(0, 1, 0), Vector3D(0, 0, 1),
-                             Vector3D(-1, 0, 0), Vector3D(0, -1, 0), Vector3D(0, 0, -1),
-                             Vector3D(0.6, 0.8, 0), Vector3D(0, 0.6, -0.8)])
+                             Vector3D(-1, 0, 0), Vector3D(0, -1, 0), Vector3D(0, 0, -1)])
         while True:
             v = Vector3D(r.gauss(0, 1), r.gauss(0, 1), r.gauss(0, 1))
             if v.magnitude > 1e-3:
@@ -304,7 +305,7 @@ class Gen(object):
         r = self.rng
         if stream == 'lattice':
             return r.choice([Vector2D(1, 0), Vector2D(0, 1), Vector2D(-1, 0),
-                             Vector2D(0, -1), Vector2D(0.6, 0.8), Vector2D(-0.8, 0.6)])
+                             Vector2D(0, -1)])
         a = r.uniform(0, 2 * math.pi)
         return Vector2D(math.cos(a), math.sin(a)).normalize()
 
@@ -359,6 +360,8 @@ class Gen(object):
                     return v
         if hint == 'angle':
             return self.angle(stream)
+        if hint == 'angle_generic':
+            return r.uniform(-4 * math.pi, 4 * math.pi)
         if hint == 'arcangle':
             if stream == 'lattice':
                 return r.randint(0, 16) * math.pi / 8
@@ -476,6 +479,34 @@ class Gen(object):
             h = abs(s()) + 0.5
             return Cylinder(Point3D(s(), s(), s()), ax * h, abs(s()) + 0.25)
         raise ValueError('no generator for %r' % (t,))
+
+
+# ------------------------------------------------------------------ preconditions
+def _planes_not_parallel(args):
+    pls = [a for a in args if isinstance(a, Plane)]
+    if len(pls) < 2:
+        return True
+    return pls[0].n.cross(pls[1].n).magnitude > 1e-3
+
+
+def _line_not_parallel_to_plane(args):
+    pl = [a for a in args if isinstance(a, Plane)]
+    ln = [a for a in args if isinstance(a, (LineSegment3D, Ray3D))]
+    if not pl or not ln or ln[0].v.magnitude == 0:
+        return True
+    return abs(pl[0].n.dot(ln[0].v.normalize())) > 1e-3
+
+
+def _lines_not_parallel(args):
+    ln = [a for a in args if isinstance(a, (LineSegment2D, Ray2D))]
+    if len(ln) < 2 or ln[0].v.magnitude == 0 or ln[1].v.magnitude == 0:
+        return True
+    return abs(ln[0].v.normalize().determinant(ln[1].v.normalize())) > 1e-3
+
+
+PRECONDITIONS = {'planes_not_parallel': _planes_not_parallel,
+                 'line_not_parallel_to_plane': _line_not_parallel_to_plane,
+                 'lines_not_parallel': _lines_not_parallel}
 
 
 # ------------------------------------------------------------------ real-side calls
